@@ -199,6 +199,78 @@ def sql_clause_terms_rule(program, res, rule="C17-S11"):
                             f"one all-NULL row — Pandas and Polars return no record (a count above it: 1 vs 0)")
 
 
+def polars_spec_order_rule(program, res, rule="C17-S5"):
+    """the Polars twin of S5: blocks_to_rowrecs relabels each block's value columns by position (`s.columns = [...]`), so the frame has to be put
+    in the order of the record specification first — `data.select(<specification columns>)`, on every path, not only when columns have to be dropped"""
+    m = program.method("polars_model", "PolarsModel", "blocks_to_rowrecs", inherited=False)
+    res.analysed(m)
+    positional = [st for st in ast.walk(m.node) if isinstance(st, ast.Assign) and isinstance(st.targets[0], ast.Attribute) and st.targets[0].attr == "columns"]
+    if not positional:
+        res.ok(rule, "PolarsModel.blocks_to_rowrecs: no positional column relabelling", nontrivial=False)
+        return
+    frame = [p for p in m.params() if p != "self"][0]
+    spec = "blocks_in"
+    mod = program.module("polars_model")
+
+    def always_selects(fn_node, frame_p, cols_p) -> bool:
+        g_ = cfgmod.build(fn_node)
+        d_ = depsmod.Deps(g_, [a.arg for a in fn_node.args.args])
+        rets = g_.returns()
+        if not rets:
+            return False
+        for r in rets:
+            v = r.stmt.value
+            if not (isinstance(v, ast.Call) and isinstance(v.func, ast.Attribute) and v.func.attr == "select" and unparse(v.func.value) == frame_p and v.args):
+                return False
+            roots = d_.roots_at(r, v.args[0])
+            if not depsmod.has_root(roots, cols_p) or frame_p in roots:
+                return False
+        return True
+
+    g = cfgmod.build(m.node)
+    d = depsmod.Deps(g, m.params())
+    verdict = None
+    for st in m.node.body:  # unconditional statements of the method only
+        if not (isinstance(st, ast.Assign) and len(st.targets) == 1 and unparse(st.targets[0]) == frame and isinstance(st.value, ast.Call)):
+            continue
+        c = st.value
+        cols = None
+        if isinstance(c.func, ast.Attribute) and c.func.attr == "select" and unparse(c.func.value) == frame and c.args:
+            cols = c.args[0]
+        else:
+            h = None
+            if isinstance(c.func, ast.Name) and c.func.id in mod.functions:
+                h = mod.functions[c.func.id].node
+                hargs = [a.arg for a in h.args.args]
+            elif isinstance(c.func, ast.Attribute) and unparse(c.func.value) == "self":
+                hm = program.cls("polars_model", "PolarsModel").find_method(c.func.attr)
+                h = hm.node if hm is not None else None
+                hargs = [a.arg for a in h.args.args if a.arg != "self"] if h is not None else []
+            if h is not None and len(c.args) == 2 and unparse(c.args[0]) == frame and len(hargs) >= 2:
+                if always_selects(h, hargs[0], hargs[1]):
+                    cols = c.args[1]
+                else:
+                    verdict = ("helper", st, h.name)
+                    continue
+        if cols is not None:
+            node = next((n for n in g.stmt_nodes(("stmt",)) if n.stmt is st), None)
+            roots = d.roots_at(node, cols) if node is not None else set()
+            if depsmod.has_root(roots, spec) and frame not in roots:
+                verdict = ("ok", st, None)
+                break
+            verdict = ("input", st, None)
+    if verdict and verdict[0] == "ok":
+        res.ok(rule, f"PolarsModel.blocks_to_rowrecs: `{unparse(verdict[1])[:60]}` puts the columns in the order of the record specification on every path")
+    elif verdict and verdict[0] == "helper":
+        res.fail_at(rule, m, "polars-column-order-kept-from-input:blocks_to_rowrecs",
+                    f"`{unparse(verdict[1])[:70]}`: {verdict[2]} does not select the named columns on every path (it can hand the frame back as it came), and blocks_to_rowrecs "
+                    f"relabels value columns by position (`{unparse(positional[0])[:50]}`): a frame holding exactly the block columns in another order than the control table gets "
+                    f"its values under the wrong names, silently; Pandas selects by name", verdict[1])
+    else:
+        res.fail_at(rule, m, "polars-column-order-from-input:blocks_to_rowrecs",
+                    f"blocks_to_rowrecs relabels value columns by position (`{unparse(positional[0])[:50]}`) without first selecting the frame's columns in the order of the record specification")
+
+
 def _selects_named_columns(helper) -> bool:
     """helper(self, df, columns): every return is `df.loc[:, cols]` with cols built from the `columns` parameter only"""
     ps = helper.params()
@@ -237,6 +309,7 @@ def run(program, res, tier):
     _s7_block_alignment(program, res)
     res.rule("C17-S6", "Polars stacks value columns of different dtypes the way Pandas does")
     _s6_polars_stacking(program, res)
+    polars_spec_order_rule(program, res)
     res.rule("C17-S12", "zero-row record conversions keep the column types")
     from . import c03 as _c03
     _c03.empty_frame_types_rule(program, res, rule="C17-S12", methods={"blocks_to_rowrecs", "rowrecs_to_blocks"})
